@@ -16,6 +16,12 @@ for d in sorted(glob.glob(V + "/seeded/C*")):
         for v in viol:
             det.append({"check": prop, "harness": v[2], "assertion": v[3], "native_release": v[4]})
         if not viol:
+            solver_failed = re.findall(r"^\[%s\] (\S+)\s+FAILED\s+checks=(\d+) failed=(\d+)" % prop, t, re.M)
+            if not ok and not infra and solver_failed:
+                # the run was still generating the native replay tape when it was recorded
+                h, nchk, nf = solver_failed[0]
+                det.append({"check": prop, "harness": None, "result": "solver verdict FAILED in `%s` (%s of %s checks); the native replay (concrete playback, ~25 GB) had not finished when the session ended, so no VIOLATION line was printed - counted as not caught" % (h, nf, nchk)})
+                continue
             det.append({"check": prop, "harness": None, "result": "passed (missed)" if ok else ("infrastructure error: " + "; ".join(infra)[:200])})
     m["detection"] = det
     json.dump(m, open(d + "/meta.json", "w"), indent=1)
